@@ -3,7 +3,7 @@
    RFC 8536 writer wrote. *)
 From Coq Require Import List ZArith Bool Arith Lia.
 From Coq.Strings Require Import Byte.
-From Muduo Require Import Base_Bytes C20_Model C20_TzifModel C20_TzProofs.
+From Muduo Require Import Base_Bytes C20_Model Gen_C20Tz C20_TzifModel C20_TzProofs.
 Import ListNotations.
 Local Open Scope Z_scope.
 
@@ -189,12 +189,15 @@ Proof.
   assert (Hun : signed_range 4 (Z.of_nat (length isut))) by (apply sr4_nat; destruct Hut as [->| ->]; [reflexivity|exact Hno]).
   unfold readDataBlock, encode_block. rewrite <- !app_assoc.
   rewrite readCounts_enc by (auto using sr4_nat, sr4_0; apply sr4_nat; lia).
-  cbn [Z.eqb negb].
+  (* the facts generated from readDataBlock: which count is tested / bounds which loop *)
+  unfold readDataBlock_reject, readDataBlock_reserve_times, readDataBlock_ntimes, readDataBlock_reserve_idx,
+    readDataBlock_nidx, readDataBlock_reserve_types, readDataBlock_ntypes, readDataBlock_nadd, readDataBlock_nchars.
+  cbn [Z.eqb negb orb].
   assert (E1 : negb (Z.of_nat (length isut) =? 0) && negb (Z.of_nat (length isut) =? Z.of_nat (length (offs tb))) = false).
   { destruct Hut as [->| ->]; [reflexivity|]. rewrite Z.eqb_refl. cbn. apply andb_false_r. }
   assert (E2 : negb (Z.of_nat (length isstd) =? 0) && negb (Z.of_nat (length isstd) =? Z.of_nat (length (offs tb))) = false).
   { destruct Hstd as [->| ->]; [reflexivity|]. rewrite Z.eqb_refl. cbn. apply andb_false_r. }
-  rewrite E1, E2.
+  rewrite E1, E2. cbn [orb].
   destruct (Z.ltb_spec (Z.of_nat (length (trans tb))) 0) as [Hneg|_]; [lia|].
   destruct (Z.ltb_spec (Z.of_nat (length (offs tb))) 0) as [Hneg|_]; [lia|].
   destruct (Z.leb_spec (Z.of_nat (length abbr)) 0) as [Hneg|_]; [lia|].
@@ -221,6 +224,8 @@ Proof.
   rewrite readIdx_enc.
   2:{ eapply Forall_impl; [|exact Ftr]. cbv beta. tauto. }
   rewrite (readMany_enc readType (fun o => be32 o ++ [x00; x00]) 6 (signed_range 4)); [|intros; apply readType_enc; assumption|exact Foff].
+  rewrite <- (map_length tutc (trans tb)) at 1. rewrite firstn_all.
+  rewrite <- (map_length (fun tr => Z.of_nat (tidx tr)) (trans tb)). rewrite firstn_all.
   rewrite addTransitions_enc.
   2:{ eapply Forall_impl; [|exact Ftr]. cbv beta. tauto. }
   rewrite readBytes_app. destruct tb; reflexivity.
@@ -251,6 +256,22 @@ Proof.
   rewrite L1, L2. lia.
 Qed.
 
+(* the literals and constants generated from readTimeZoneFile, as the writer's side spells them
+   (fails, closing the proof, when the source says something else) *)
+Ltac tz_consts :=
+  change (Z.to_nat readTimeZoneFile_head_len) with 4%nat;
+  change (chars readTimeZoneFile_magic) with magic;
+  change (Z.to_nat readTimeZoneFile_version_len) with 1%nat;
+  change (Z.to_nat readTimeZoneFile_reserved_len) with 15%nat;
+  change (chars readTimeZoneFile_v2) with [x32];
+  change (Z.to_nat readTimeZoneFile_head2_len) with 4%nat;
+  change (chars readTimeZoneFile_magic2) with magic;
+  change readTimeZoneFile_skip2 with 16;
+  change readTimeZoneFile_v2_block_v1 with false;
+  change readTimeZoneFile_rewind with (-24);
+  change readTimeZoneFile_v1_block_v1 with true;
+  unfold readTimeZoneFile_skip, readTimeZoneFile_skip_fits.
+
 (* a version-1 file, and any file whose version byte is not '2' (muduo reads its 32-bit data) *)
 Lemma parse_encode_v1 version tb abbr isstd isut tail :
   version <> x32 -> encodable 4 tb abbr isstd isut ->
@@ -260,7 +281,7 @@ Proof.
   assert (Hsn : signed_range 4 (Z.of_nat (length isstd))) by (apply sr4_nat; destruct Hstd as [->| ->]; [reflexivity|exact Hno]).
   assert (Hun : signed_range 4 (Z.of_nat (length isut))) by (apply sr4_nat; destruct Hut as [->| ->]; [reflexivity|exact Hno]).
   destruct (encode_block_counts 4 tb abbr isstd isut) as (body & Eb & _).
-  unfold tzif_parse, encode_v1.
+  unfold tzif_parse, encode_v1. tz_consts.
   set (file := header version ++ encode_block 4 tb abbr isstd isut ++ tail).
   assert (Hf : file = magic ++ [version] ++ repeat x00 15 ++ encode_block 4 tb abbr isstd isut ++ tail).
   { unfold file, header. rewrite <- !app_assoc. reflexivity. }
@@ -295,7 +316,7 @@ Proof.
   assert (Hsn : signed_range 4 (Z.of_nat (length isstd1))) by (apply sr4_nat; destruct Hstd as [->| ->]; [reflexivity|exact Hno]).
   assert (Hun : signed_range 4 (Z.of_nat (length isut1))) by (apply sr4_nat; destruct Hut as [->| ->]; [reflexivity|exact Hno]).
   destruct (encode_block_counts 4 tb1 abbr1 isstd1 isut1) as (body & Eb & Lb).
-  unfold tzif_parse, encode_v2.
+  unfold tzif_parse, encode_v2. tz_consts.
   set (rest2 := header x32 ++ encode_block 8 tb abbr isstd isut ++ footer).
   set (file := header x32 ++ encode_block 4 tb1 abbr1 isstd1 isut1 ++ rest2).
   assert (Hf : file = magic ++ [x32] ++ repeat x00 15 ++ encode_block 4 tb1 abbr1 isstd1 isut1 ++ rest2).
@@ -360,3 +381,14 @@ Proof.
   repeat split; auto; try (cbn; lia).
   constructor; [|constructor]. unfold signed_range. cbn. lia.
 Qed.
+
+(* the loop bounds generated from readDataBlock agree with each other: the vectors indexed by
+   the addTransition loop were filled by loops with the same bound, each reserve call is given
+   the bound of the loop that follows it (for all values of the six counts) *)
+Lemma reader_plan_consistent a b c d e f :
+  readDataBlock_nadd a b c d e f = readDataBlock_ntimes a b c d e f /\
+  readDataBlock_nidx a b c d e f = readDataBlock_ntimes a b c d e f /\
+  readDataBlock_reserve_times a b c d e f = readDataBlock_ntimes a b c d e f /\
+  readDataBlock_reserve_idx a b c d e f = readDataBlock_nidx a b c d e f /\
+  readDataBlock_reserve_types a b c d e f = readDataBlock_ntypes a b c d e f.
+Proof. repeat split; reflexivity. Qed.
